@@ -198,8 +198,8 @@ func parseContractComments(fset *token.FileSet, f *ast.File, pkgPath string) ([]
 					cur.Loops[n] = append(cur.Loops[n], cl)
 					lastClause = cl
 				case "crashinv":
-					lb, _, ex := splitLabel(rest)
-					cl := &Clause{Kind: "crashinv", Label: lb, Expr: ex, Line: where}
+					lb, cprops, ex := splitLabel(rest)
+					cl := &Clause{Kind: "crashinv", Label: lb, Props: cprops, Expr: ex, Line: where}
 					cur.CrashInv = append(cur.CrashInv, cl)
 					lastClause = cl
 				case "callbackinv":
